@@ -11,13 +11,10 @@ import (
 	"encoding/json"
 	"fmt"
 	"math/rand"
-	"os"
 	"regexp"
 	"sort"
 	"strings"
 
-	bo "github.com/benoitkugler/webrender/html/boxes"
-	"github.com/benoitkugler/webrender/html/layout"
 
 	"verif/internal/fw"
 	"verif/internal/gen"
@@ -34,9 +31,8 @@ type input struct {
 
 // stallLimit: number of consecutive page-loop iterations with an identical state that is taken as
 // "the layout does not progress".
-const stallLimit = 8
+const stallLimit = wr.StallLimit
 
-type stall struct{ kind, msg string }
 
 func counts(tier string) (docs, skips int) {
 	if tier == "thorough" {
@@ -82,47 +78,13 @@ func init() {
 
 var tokRe = regexp.MustCompile(`w[0-9]+z`)
 
-// render runs one document with the progress monitor installed.
+// render runs one document with the page-loop progress monitor of wr.Render.
 func render(d gen.Doc, res *fw.Result) (r *wr.Rendered, stalled string, err error) {
-	var (
-		last    string
-		repeats int
-	)
-	layout.VerifPageHook = func(index int, resumeAt string, oof, foot int, page *bo.PageBox) {
-		res.Count("page_loop_iterations", 1)
-		if os.Getenv("C01_TRACE_PAGES") != "" && (index < 12 || index%500 == 0) {
-			fmt.Fprintf(os.Stderr, "page %d resume=%s oof=%d foot=%d type=%+v\n", index, resumeAt, oof, foot, page.PageType)
-		}
-		if resumeAt == "nil" && foot == 0 {
-			last, repeats = "", 0 // the loop ends here
-			return
-		}
-		// the page side alternates and the index grows by construction: neither is progress
-		state := fmt.Sprintf("%s|%d|%d|%v|%s", resumeAt, oof, foot, page.PageType.Blank, page.PageType.Name)
-		if state == last {
-			repeats++
-			if repeats >= stallLimit {
-				kind := "content"
-				if resumeAt == "nil" {
-					kind = "footnotes"
-				}
-				panic(stall{kind, fmt.Sprintf("page loop made no progress for %d consecutive pages (page index %d): resume point %s, %d pending out-of-flow boxes, %d pending footnotes", repeats+1, index, resumeAt, oof, foot)})
-			}
-		} else {
-			last, repeats = state, 0
-		}
-	}
-	defer func() {
-		layout.VerifPageHook = nil
-		if p := recover(); p != nil {
-			if s, ok := p.(stall); ok {
-				stalled = s.kind + ": " + s.msg
-				return
-			}
-			panic(p)
-		}
-	}()
 	r, err = wr.Render(wr.Opts{HTML: d.HTML, UserCSS: d.UserCSS, Hints: d.Hints, Engine: d.Engine, Zoom: d.Zoom, Files: d.Files})
+	res.Count("page_loop_iterations", int64(wr.PageLoopIterations))
+	if s, ok := err.(*wr.StallError); ok {
+		return r, s.Kind + ": " + s.Msg, nil
+	}
 	return
 }
 
